@@ -896,9 +896,143 @@ def c_smart(ctx, case):
             return
 
 
+AUG = {"+": operator.iadd, "-": operator.isub, "*": operator.imul, "//": operator.ifloordiv,
+       "%": operator.imod, "**": operator.ipow}
+DIRECTED_STATEMENTS = [
+    # s = x + y; t = 2 * s; s += z; r = t - s      (t refers to the object s names)
+    [("set", "s", "+", "x", "y"), ("set", "t", "*", 2, "s"), ("aug", "s", "+", "z"), ("set", "r", "-", "t", "s")],
+    [("set", "s", "+", "x", "y"), ("set", "b", "+", "s", 0), ("aug", "s", "+", "z"), ("aug", "s", "+", "b")],
+    [("set", "s", "*", "x", "y"), ("set", "t", "+", "s", 1), ("aug", "s", "*", "z"), ("aug", "s", "*", "s")],
+    [("set", "s", "-", "x", "y"), ("set", "t", "*", "s", "s"), ("aug", "s", "-", "z"), ("aug", "s", "-", 3)],
+    [("set", "s", "+", "x", 1), ("set", "t", "**", "s", 2), ("aug", "s", "**", 2), ("aug", "s", "+", "t")],
+    [("set", "s", "+", "x", 5), ("set", "t", "//", "s", 2), ("aug", "s", "//", 2), ("aug", "s", "%", 3), ("set", "r", "+", "t", "s")],
+    [("set", "s", "+", "x", "y"), ("set", "t", "+", "s", "s"), ("aug", "s", "+", "s"), ("aug", "t", "+", "s")],
+    # an operator applied to the RESULT of the same operator, with constants of either sign
+    [("set", "t", "//", "x", 3), ("set", "u", "//", "t", -2), ("set", "w", "%", "t", -2), ("aug", "t", "//", -1)],
+    [("set", "t", "//", "x", -2), ("set", "u", "//", "t", 3), ("aug", "t", "//", 2), ("aug", "t", "//", -3)],
+    [("set", "t", "%", "x", 5), ("set", "u", "%", "t", -3), ("aug", "t", "%", 3), ("aug", "t", "%", -2)],
+    [("set", "t", "**", "x", 2), ("set", "u", "**", "t", 3), ("aug", "t", "**", 2), ("aug", "t", "**", 0)],
+    [("set", "t", "-", "x", "y"), ("set", "u", "-", "t", "z"), ("set", "w", "-", "z", "t"), ("aug", "t", "-", "t")],
+    [("set", "s", "+", "x", "y"), ("aug", "s", "+", 0), ("set", "t", "*", 3, "s"), ("aug", "s", "+", "t"), ("aug", "s", "*", 1)],
+]
+
+
+def rand_statements(rng):
+    names = ["x", "y", "z"]
+    out = []
+    for i in range(rng.randint(3, 9)):
+        operand = lambda: rng.choice(names) if rng.random() < 0.75 else rng.choice([0, 1, 2, -1, 3, -2])  # noqa: E731
+        if len(names) > 3 and rng.random() < 0.45:
+            t = rng.choice(names[3:])
+            op = rng.choice(["+", "+", "+", "-", "*", "*", "//", "%", "**"])
+            out.append(("aug", t, op, rng.choice([2, 3]) if op == "**" else operand()))
+        else:
+            t = rng.choice([f"v{len(names)}", f"v{len(names)}", *names[3:]]) if len(names) > 3 else f"v{len(names)}"
+            op = rng.choice(["+", "+", "-", "*", "*", "//", "%", "**"])
+            a = rng.choice(names)
+            b = rng.choice([0, 1, 2, 3]) if op == "**" else operand()
+            if rng.random() < 0.3 and op != "**":
+                a, b = b, a
+            out.append(("set", t, op, a, b))
+            if t not in names:
+                names.append(t)
+    return out
+
+
+def run_statements(stmts, env):
+    """the statements with Python's own (augmented) assignment semantics: names are rebound,
+    the values other names hold stay what they were"""
+    vals = dict(env)
+    get = lambda a: vals[a] if isinstance(a, str) else a  # noqa: E731
+    for st in stmts:
+        if st[0] == "set":
+            _, t, op, a, b = st
+            vals[t] = BIN[op](get(a), get(b))
+        else:
+            _, t, op, a = st
+            vals[t] = AUG[op](vals[t], get(a))
+    return vals
+
+
+def show_statements(stmts):
+    return "; ".join(f"{st[1]} = {st[3]} {st[2]} {st[4]}" if st[0] == "set" else f"{st[1]} {st[2]}= {st[3]}"
+                     for st in stmts)
+
+
+@check("C03.statements")
+def c_statements(ctx, case):
+    """A straight-line computation of several statements, with names used more than once and
+    augmented assignments (s += z) -- every name ends up denoting what the same statements give
+    on plain numbers.  In particular `s += z` REBINDS s: a tree built earlier from the object s
+    named still means what it meant."""
+    (stmts, seed) = case
+    from pymbolic import evaluate
+    ctx.case(None)
+    ctx.count("statement_programs")
+    syms = {n: p.Variable(n) for n in "xyz"}
+    try:
+        trees = run_statements(stmts, syms)
+    except RecursionError:
+        raise
+    except Exception as ex:  # noqa: BLE001
+        # (operands that the shortcuts folded to plain numbers compute like plain numbers: an
+        #  error that the plain computation raises in EVERY environment is not the tree's)
+        r0 = ctx.sub_rng("stmt-env0", seed)
+        same = 0
+        for k in range(12):
+            try:
+                run_statements(stmts, {n: r0.choice([-7, -3, -2, -1, 1, 2, 3, 5, 11, 4]) for n in "xyz"})
+            except type(ex):
+                same += 1
+            except Exception:  # noqa: BLE001
+                pass
+        if same == 12:
+            ctx.count("statements_refused_like_plain_numbers")
+            return
+        ctx.fail("C03.statements", case, f"statements:raised:{type(ex).__name__}",
+                 f"{show_statements(stmts)} on Variables raised {type(ex).__name__}: {ex}")
+        return
+    rng = ctx.sub_rng("stmt-env", seed)
+    judged = 0
+    for k in range(8):
+        env = {n: rng.choice([-7, -3, -2, -1, 1, 2, 3, 5, 11, 4]) for n in "xyz"}
+        try:
+            want = run_statements(stmts, env)
+        except (ZeroDivisionError, OverflowError, ValueError):
+            continue
+        if any(isinstance(v, int) and abs(v) > 10**60 for v in want.values()) \
+                or any(isinstance(v, (float, complex)) for v in want.values()):
+            continue      # (a negative power: floats, not this check's business)
+        judged += 1
+        for n, w in want.items():
+            t = trees[n]
+            try:
+                got = evaluate(t, env) if isinstance(t, p.Expression) else t
+            except Exception as ex:  # noqa: BLE001
+                ctx.fail("C03.statements", case, f"statements:eval-raised:{type(ex).__name__}",
+                         f"{show_statements(stmts)}: the tree for {n} = {t} at {env} raised "
+                         f"{type(ex).__name__}: {ex}; plain numbers give {w}")
+                return
+            ctx.count("statement_values")
+            if not (got == w):
+                ctx.fail("C03.statements", case, "statements:value",
+                         f"{show_statements(stmts)}: on Variables {n} = {t}, which at {env} is {got}; "
+                         f"the same statements on plain numbers give {n} = {w}")
+                return
+
+
 def workload(ctx):
     rng = ctx.rng
     nenv = ctx.pick(40, 81)
+    for i, stmts in enumerate(DIRECTED_STATEMENTS):
+        if ctx.mine("statements"):
+            ctx.case(("stmts", i), True, n=0)
+            ctx.run("C03.statements", (stmts, i))
+    for i in range(ctx.per_shard(ctx.pick(600, 12000))):
+        r2 = ctx.sub_rng("stmts", i)
+        stmts = rand_statements(r2)
+        ctx.case(("stmts", tuple(stmts)), True, n=0)
+        ctx.run("C03.statements", (stmts, i))
     # kinds of numbers: every operator x every constant kind x both sides x every value kind
     consts = [2.0, -2.0, 1.0, -1.0, 0.0, -0.0, 40.0, 0.5, True, False, 2, -3, 2**53 + 1, 10**9 + 7,
               1e308, 5e-324, float("inf"), 1j, 2 + 0j, 3, 1, 0, -1]
@@ -1028,6 +1162,7 @@ def workload(ctx):
         if i < 3:
             ctx.sample("random-program", show(prog))
         ctx.run("C03.program", (prog, ctx.pick(12, 30)))
+    ctx.floor("statement_values", 3000)
     ctx.floor("exhaustive_triples", 12 * 200)
     ctx.floor("registry_histories", 30)
     ctx.floor("kind_evaluations", 10000)
